@@ -5,7 +5,7 @@
 From Cicada Require Import Base.Chars Base.Tag Gen.EscapeClass Model.Tokenizer Model.Redirect Model.Cmds
   Model.Complete Proofs.TokenizerProofs Proofs.TokenizerEscProofs Proofs.RedirectProofs
   Proofs.ListExecProofs Proofs.CmdsProofs.
-From Coq Require Import Lia Sorting.Permutation Sorting.Sorted.
+From Coq Require Import Lia PeanoNat Sorting.Permutation Sorting.Sorted.
 Local Open Scope N_scope.
 
 (** * The escape class covers every character that is special for the tokenizer and for the list splitter *)
@@ -184,18 +184,17 @@ Definition honours_guards (expand : list token -> list token) : Prop :=
 
 Definition ends_ws (s : str) : bool := match rev s with z :: _ => is_ws z | [] => false end.
 
-(** the failing classes (known_findings.txt: unq-expanded, unq-trailing-blank,
-    unq-amp-last, sq-quote, dq-expanded, dq-backslash) *)
+(** the failing classes (known_findings.txt: unq-expanded, unq-amp-last, sq-quote,
+    dq-expanded, dq-backslash). Names ending in white space are no longer among
+    them (repaired by 675add7: trim_cmd keeps an escaped trailing blank, escape_path
+    escapes every white-space character). *)
 Definition Known_C20 (q : qctx) (name : str) (d : bool) : bool :=
   match q with
   | Unq => negb (literal_token (name_tag (arg_of name d), arg_of name d))
-           || (negb d && (ends_ws name || str_eqb name [c_amp]))
+           || (negb d && str_eqb name [c_amp])
   | InSq => has_char c_sq name
   | InDq => has_char c_dollar name || has_char c_bq name || has_char c_bs name
   end.
-(** not failing (the escaped double quote is read back), but not covered by the proof *)
-Definition Unproved_C20 (q : qctx) (name : str) : bool :=
-  match q with InDq => has_char c_dq name | _ => false end.
 
 (** * Small facts *)
 Lemma has_char_app c a b : has_char c (a ++ b) = has_char c a || has_char c b.
@@ -297,39 +296,191 @@ Proof.
 Qed.
 
 (** * Escaped context *)
+Lemma ws_in_class c : is_ws c = true -> in_escape_class c = true.
+Proof.
+  intros H. unfold is_ws in H.
+  repeat (apply orb_true_iff in H as [H|H]); try (apply N.eqb_eq in H; subst; reflexivity);
+    apply andb_true_iff in H as [H1 H2]; apply N.leb_le in H1, H2.
+  - assert (E : c = 9 \/ c = 10 \/ c = 11 \/ c = 12 \/ c = 13) by lia.
+    repeat destruct E as [E|E]; subst; reflexivity.
+  - assert (E : c = 8192 \/ c = 8193 \/ c = 8194 \/ c = 8195 \/ c = 8196 \/ c = 8197 \/ c = 8198 \/
+                c = 8199 \/ c = 8200 \/ c = 8201 \/ c = 8202) by lia.
+    repeat destruct E as [E|E]; subst; reflexivity.
+Qed.
+
+Lemma skipn_length_app {A} (a b : list A) : skipn (length a) (a ++ b) = b.
+Proof. induction a as [|x a IH]; [reflexivity|exact IH]. Qed.
+
+Lemma ws_not_bs z : is_ws z = true -> (z =? 92) = false.
+Proof. intros H. destruct (N.eqb_spec z 92) as [->|_]; [discriminate H|reflexivity]. Qed.
+
+(** trim_cmd on a text that ends in an escaped white-space character followed by white space *)
+Lemma trim_cmd_esc_ws R z ws_end :
+  first_nonws R = true -> Nat.even (tb R) = true -> is_ws z = true -> forallb is_ws ws_end = true ->
+  trim_cmd (R ++ [c_bs; z] ++ ws_end) = R ++ [c_bs; z].
+Proof.
+  intros Hf He Hz Hw. unfold trim_cmd.
+  assert (Ets : trim_start (R ++ [c_bs; z] ++ ws_end) = R ++ [c_bs; z] ++ ws_end).
+  { destruct R as [|c r]; [discriminate|]. cbn in *. now rewrite (negb_true_false _ Hf). }
+  rewrite Ets.
+  assert (Ete : trim_end (R ++ [c_bs; z] ++ ws_end) = R ++ [c_bs]).
+  { unfold trim_end. rewrite !rev_app_distr. cbn [rev app]. rewrite <- app_assoc.
+    rewrite trim_start_ws by now rewrite forallb_rev. cbn [app trim_start]. rewrite Hz.
+    cbn [trim_start]. change (is_ws c_bs) with false. cbn iota.
+    change (c_bs :: rev R) with ([c_bs] ++ rev R). rewrite <- (rev_involutive [c_bs]), <- rev_app_distr.
+    now rewrite rev_involutive. }
+  rewrite Ete.
+  assert (Elt : Nat.ltb (length (R ++ [c_bs])) (length (R ++ [c_bs; z] ++ ws_end)) = true).
+  { apply Nat.ltb_lt. rewrite !app_length. cbn [length]. lia. }
+  rewrite Elt. fold (tb (R ++ [c_bs])). rewrite tb_snoc. change (c_bs =? 92) with true. cbn iota.
+  rewrite Nat.odd_succ, He.
+  replace (R ++ [c_bs; z] ++ ws_end) with ((R ++ [c_bs]) ++ z :: ws_end) by (rewrite <- app_assoc; reflexivity).
+  rewrite skipn_length_app. rewrite <- app_assoc. reflexivity.
+Qed.
+
+Lemma l2c_esc_ws seg z ws_end :
+  forallb wf_atom seg = true -> first_nonws (render_seg seg) = true -> is_ws z = true ->
+  forallb is_ws ws_end = true ->
+  line_to_cmds (render_seg seg ++ [c_bs; z] ++ ws_end) = [render_seg seg ++ [c_bs; z]].
+Proof.
+  intros Hwf Hf Hz Hw. unfold line_to_cmds, lst0.
+  rewrite (loop_seg _ Hwf). cbn [app].
+  change (c_bs :: z :: ws_end) with (render_atom (AEsc z) ++ ws_end).
+  rewrite (loop_atom (AEsc z) eq_refl).
+  rewrite <- (app_nil_r ws_end), (loop_ws _ Hw). cbn [l2c_loop]. unfold l2c_finish, push_trimmed. cbn [l_res l_tok render_atom].
+  match goal with |- context [trim_cmd ?x] =>
+    assert (E : trim_cmd x = render_seg seg ++ [c_bs; z]) end.
+  { rewrite <- app_assoc. apply trim_cmd_esc_ws; try assumption. now apply even_bs_seg. }
+  rewrite E. destruct (render_seg seg); [discriminate|reflexivity].
+Qed.
+
+Ltac lnorm := repeat (rewrite <- app_assoc || (progress (cbn [app]))).  
+
 Lemma escaped_round_trip expand cmd arg ws_end :
-  honours_guards expand -> cmd_word cmd = true -> arg <> [] -> ends_ws arg = false ->
+  honours_guards expand -> cmd_word cmd = true -> arg <> [] ->
   str_eqb arg [c_amp] = false -> literal_token (name_tag arg, arg) = true ->
   forallb is_ws ws_end = true ->
   run_line expand (cmd ++ c_space :: escape_path arg ++ ws_end) = Some [cmd; arg].
 Proof.
-  intros Hg Hcmd Hnn Hend Hamp Hlit Hws.
+  intros Hg Hcmd Hnn Hamp Hlit Hws.
   destruct (cmd_word_facts _ Hcmd) as (Hp & Hna & Hne & Hl & Hf & Hcn & _).
-  set (seg := plain_atoms cmd ++ APlain c_space :: esc_atoms arg).
-  assert (Er : render_seg seg = cmd ++ c_space :: escape_path arg).
-  { unfold seg. rewrite render_seg_app, render_plain_atoms.
-    change (APlain c_space :: esc_atoms arg) with ([APlain c_space] ++ esc_atoms arg).
-    rewrite render_seg_app, render_esc_atoms. reflexivity. }
-  assert (Hseg : wf_seg seg = true).
-  { unfold wf_seg. apply andb_true_iff. split.
-    - unfold seg. rewrite forallb_app, (wf_plain_atoms _ Hl). cbn [forallb andb wf_atom]. apply wf_esc_atoms.
-    - rewrite Er. destruct (exists_last Hnn) as (pre & z & ->).
-      unfold ends_ws in Hend. rewrite rev_app_distr in Hend. cbn [rev app] in Hend.
-      rewrite escape_path_app. unfold escape_path at 2. cbn [flat_map]. rewrite app_nil_r.
-      destruct (escape_char_last z) as (p' & ->).
-      replace (cmd ++ c_space :: escape_path pre ++ p' ++ [z])
-        with ((cmd ++ c_space :: escape_path pre ++ p') ++ [z])
-        by (rewrite <- !app_assoc; cbn [app]; rewrite <- app_assoc; reflexivity).
-      apply solid_ends; [now rewrite first_nonws_app|exact Hend]. }
-  unfold run_line.
-  replace (cmd ++ c_space :: escape_path arg ++ ws_end) with (render_seg seg ++ ws_end)
-    by (rewrite Er, <- app_assoc; reflexivity).
-  rewrite (l2c_one seg ws_end Hseg Hws), Er.
+  assert (Hl2c : line_to_cmds (cmd ++ c_space :: escape_path arg ++ ws_end) = [cmd ++ c_space :: escape_path arg]).
+  { destruct (exists_last Hnn) as (pre & z & ->). rewrite escape_path_app.
+    assert (Ez : escape_path [z] = escape_char z) by (unfold escape_path; cbn [flat_map]; apply app_nil_r).
+    rewrite Ez.
+    destruct (is_ws z) eqn:Hz.
+    - (* the name ends in white space: it is escaped, trim_cmd keeps it *)
+      unfold escape_char. rewrite (ws_in_class _ Hz).
+      set (seg := plain_atoms cmd ++ APlain c_space :: esc_atoms pre).
+      assert (Er : render_seg seg = cmd ++ c_space :: escape_path pre).
+      { unfold seg. rewrite render_seg_app, render_plain_atoms.
+        change (APlain c_space :: esc_atoms pre) with ([APlain c_space] ++ esc_atoms pre).
+        rewrite render_seg_app, render_esc_atoms. reflexivity. }
+      replace (cmd ++ c_space :: (escape_path pre ++ [c_bs; z]) ++ ws_end)
+        with (render_seg seg ++ [c_bs; z] ++ ws_end)
+        by (rewrite Er; lnorm; reflexivity).
+      replace (cmd ++ c_space :: escape_path pre ++ [c_bs; z]) with (render_seg seg ++ [c_bs; z])
+        by (rewrite Er; lnorm; reflexivity).
+      apply l2c_esc_ws; try assumption.
+      + unfold seg. rewrite forallb_app, (wf_plain_atoms _ Hl). cbn [forallb andb wf_atom]. apply wf_esc_atoms.
+      + rewrite Er. now rewrite first_nonws_app.
+    - set (seg := plain_atoms cmd ++ APlain c_space :: esc_atoms (pre ++ [z])).
+      assert (Er : render_seg seg = cmd ++ c_space :: escape_path pre ++ escape_char z).
+      { unfold seg. rewrite render_seg_app, render_plain_atoms.
+        change (APlain c_space :: esc_atoms (pre ++ [z])) with ([APlain c_space] ++ esc_atoms (pre ++ [z])).
+        rewrite render_seg_app, render_esc_atoms, escape_path_app. unfold escape_path at 2. cbn [flat_map].
+        rewrite app_nil_r. reflexivity. }
+      assert (Hseg : wf_seg seg = true).
+      { unfold wf_seg. apply andb_true_iff. split.
+        - unfold seg. rewrite forallb_app, (wf_plain_atoms _ Hl). cbn [forallb andb wf_atom]. apply wf_esc_atoms.
+        - rewrite Er. destruct (escape_char_last z) as (p' & ->).
+          replace (cmd ++ c_space :: escape_path pre ++ p' ++ [z])
+            with ((cmd ++ c_space :: escape_path pre ++ p') ++ [z])
+            by (rewrite <- !app_assoc; cbn [app]; rewrite <- app_assoc; reflexivity).
+          apply solid_ends; [now rewrite first_nonws_app|exact Hz]. }
+      replace (cmd ++ c_space :: (escape_path pre ++ escape_char z) ++ ws_end) with (render_seg seg ++ ws_end)
+        by (rewrite Er; lnorm; reflexivity).
+      rewrite (l2c_one seg ws_end Hseg Hws), Er. reflexivity. }
+  unfold run_line. rewrite Hl2c.
   pose proof (parse_line_escape_path cmd arg 0 Hp Hna Hnn) as Hpl.
   cbn [spaces repeat] in Hpl. rewrite app_nil_r in Hpl. rewrite Hpl.
   match goal with |- context [expand ?l] =>
     replace (expand l) with [(TNone, cmd); (name_tag arg, arg)] by (symmetry; exact (Hg cmd _ Hcmd Hlit)) end.
   rewrite plan_two; [reflexivity|now apply plain_word_cmd_ok|now apply arg_ok_escaped].
+Qed.
+
+(** * Inside double quotes, with the quotes of the name escaped *)
+Lemma wrap_loop_dq t : forall met prev, wrap_loop TDq met prev t = dq_esc t.
+Proof.
+  induction t as [|c t IH]; intros met prev; [reflexivity|]. cbn [wrap_loop tag_eqb andb]. rewrite andb_false_r.
+  unfold is_tag_char. cbn [tag_char]. unfold dq_esc. cbn [flat_map]. fold (dq_esc t). rewrite IH.
+  destruct (N.eqb_spec c c_dq) as [->|_]; reflexivity.
+Qed.
+
+Lemma l2c_cons s c r : l2c_loop s (c :: r) =
+  match l2c_step s c (Cmds.peek r) with LCont s' => l2c_loop s' r | LBreak s' => s' end.
+Proof. reflexivity. Qed.
+
+Lemma step_bs_in_dq res tok nxt : l2c_step (mkl res LDq tok false) c_bs nxt = LCont (mkl res LDq tok true).
+Proof. reflexivity. Qed.
+
+Lemma l2c_loop_dq_esc t : has_lcls LBs t = false -> forall res tok rest,
+  l2c_loop (mkl res LDq tok false) (dq_esc t ++ rest) = l2c_loop (mkl res LDq (tok ++ dq_esc t) false) rest.
+Proof.
+  induction t as [|c t IH]; intros Hb res tok rest; [now rewrite app_nil_r|].
+  apply has_lcls_cons in Hb as [Hc Hb]. unfold dq_esc. cbn [flat_map]. fold (dq_esc t). rewrite <- app_assoc.
+  destruct (N.eqb_spec c c_dq) as [->|Hne].
+  - cbn [app]. rewrite l2c_cons, step_bs_in_dq, l2c_cons, step_after_bs, (IH Hb).
+    now rewrite <- app_assoc.
+  - cbn [app]. rewrite l2c_cons, step_in_quote; [|right; now left| |now right].
+    + rewrite (IH Hb). now rewrite <- app_assoc.
+    + intros E. apply l_dq in E. contradiction.
+Qed.
+
+Lemma tb_app_last s c : (c =? 92) = false -> tb (s ++ [c]) = O.
+Proof. intros H. now rewrite tb_snoc, H. Qed.
+
+Lemma l2c_dq_line cmd t ws_end :
+  l_plain cmd = true -> first_nonws cmd = true -> has_lcls LBs t = false -> forallb is_ws ws_end = true ->
+  line_to_cmds (cmd ++ c_space :: c_dq :: dq_esc t ++ [c_dq] ++ ws_end) = [cmd ++ c_space :: c_dq :: dq_esc t ++ [c_dq]].
+Proof.
+  intros Hl Hf Hb Hw. unfold line_to_cmds, lst0.
+  set (seg := plain_atoms cmd ++ [APlain c_space]).
+  assert (Er : render_seg seg = cmd ++ [c_space]).
+  { unfold seg. rewrite render_seg_app, render_plain_atoms. reflexivity. }
+  assert (Hwf : forallb wf_atom seg = true).
+  { unfold seg. rewrite forallb_app, (wf_plain_atoms _ Hl). reflexivity. }
+  replace (cmd ++ c_space :: c_dq :: dq_esc t ++ [c_dq] ++ ws_end)
+    with (render_seg seg ++ c_dq :: dq_esc t ++ [c_dq] ++ ws_end)
+    by (rewrite Er, <- app_assoc; reflexivity).
+  rewrite (loop_seg _ Hwf). cbn [app].
+  rewrite l2c_cons, (step_open _ _ c_dq _ LDq); [|right; now left|reflexivity].
+  rewrite (l2c_loop_dq_esc t Hb). cbn [app]. rewrite l2c_cons, (step_close _ _ c_dq _ LDq); [|right; now left|reflexivity].
+  rewrite <- (app_nil_r ws_end), (loop_ws _ Hw). cbn [l2c_loop]. unfold l2c_finish. cbn [l_res l_tok].
+  rewrite Er. set (S := cmd ++ c_space :: c_dq :: dq_esc t ++ [c_dq]).
+  match goal with |- push_trimmed [] ?T = _ =>
+    assert (ET : T = [] ++ S ++ ws_end) by (unfold S; lnorm; reflexivity); rewrite ET end.
+  assert (ES : S = (cmd ++ c_space :: c_dq :: dq_esc t) ++ [c_dq]) by (unfold S; lnorm; reflexivity).
+  rewrite push_trimmed_pad; try assumption; try reflexivity.
+  - rewrite ES. apply solid_ends; [|reflexivity]. rewrite first_nonws_app; [exact Hf|]. destruct cmd; [discriminate|congruence].
+  - rewrite ES. now rewrite tb_app_last.
+Qed.
+
+Lemma dq_round_trip expand cmd t ws_end :
+  honours_guards expand -> cmd_word cmd = true ->
+  has_char c_bs t = false -> has_char c_dollar t = false -> has_char c_bq t = false ->
+  forallb is_ws ws_end = true ->
+  run_line expand (cmd ++ c_space :: c_dq :: dq_esc t ++ [c_dq] ++ ws_end) = Some [cmd; t].
+Proof.
+  intros Hg Hcmd Hbs Hdol Hbq Hws.
+  destruct (cmd_word_facts _ Hcmd) as (Hp & Hna & Hne & Hl & Hf & Hcn & _).
+  unfold run_line. rewrite (l2c_dq_line cmd t ws_end Hl Hf (lcls_char LBs c_bs _ l_bs Hbs) Hws).
+  rewrite (parse_line_dq_escaped cmd t Hp Hna (cls_char KBs c_bs _ k_bs Hbs)).
+  assert (Hlit : literal_token (TDq, t) = true).
+  { cbn [literal_token]. unfold lacks. now rewrite Hdol, Hbq. }
+  match goal with |- context [expand ?l] =>
+    replace (expand l) with [(TNone, cmd); (TDq, t)] by (symmetry; exact (Hg cmd _ Hcmd Hlit)) end.
+  rewrite plan_two; [reflexivity|now apply plain_word_cmd_ok|reflexivity].
 Qed.
 
 (** * The partial theorem *)
@@ -353,10 +504,10 @@ Proof. change (c :: s ++ [c]) with ((c :: s) ++ [c]). apply removelast_last. Qed
 
 Theorem round_trip_partial expand q cmd name d :
   honours_guards expand -> cmd_word cmd = true -> valid_filename name = true ->
-  Known_C20 q name d = false -> Unproved_C20 q name = false ->
+  Known_C20 q name d = false ->
   run_line expand (completed_line q cmd name d) = Some [cmd; arg_of name d].
 Proof.
-  intros Hg Hcmd Hv Hk Hu. destruct (valid_filename_facts _ Hv) as [Hnn Hsl].
+  intros Hg Hcmd Hv Hk. destruct (valid_filename_facts _ Hv) as [Hnn Hsl].
   unfold completed_line, comp_of. cbn [is_empty]. rewrite (squeeze_no_slash _ Hsl).
   assert (Harg : arg_of name d <> []) by (destruct d; cbn [arg_of]; [destruct name; discriminate|exact Hnn]).
   destruct q; cbn [ctx_tag tag_eqb negb andb orb cp_text]; rewrite ?andb_false_r, ?andb_true_r.
@@ -367,8 +518,7 @@ Proof.
       with (escape_path (arg_of name d) ++ (if d then [] else [c_space])).
     2:{ destruct d; cbn [arg_of tag_str tag_char]; [|reflexivity]. rewrite escape_path_app, app_nil_r. reflexivity. }
     apply escaped_round_trip; try assumption.
-    + destruct d; cbn [arg_of]; [apply ends_ws_slash|]. cbn [negb andb] in Hrest. now apply orb_false_iff in Hrest as [? _].
-    + destruct d; cbn [arg_of]; [apply not_amp_slash|]. cbn [negb andb] in Hrest. now apply orb_false_iff in Hrest as [_ ?].
+    + destruct d; cbn [arg_of]; [apply not_amp_slash|]. exact Hrest.
     + destruct d; reflexivity.
   - (* inside single quotes *)
     cbn [Known_C20] in Hk.
@@ -386,23 +536,23 @@ Proof.
     + cbn [wf_atom]. now rewrite (lcls_char LSq c_sq _ l_sq Hq).
     + reflexivity.
     + destruct d; reflexivity.
-  - (* inside double quotes *)
-    cbn [Known_C20] in Hk. cbn [Unproved_C20] in Hu.
+  - (* inside double quotes: a double quote of the name is written as backslash + quote *)
+    cbn [Known_C20] in Hk.
     apply orb_false_iff in Hk as [Hk Hbs]. apply orb_false_iff in Hk as [Hdol Hbq].
-    unfold wrap_sep_string. cbn [tag_str tag_char]. rewrite wrap_loop_id; [|discriminate|].
-    2:{ intros c Hc. unfold is_tag_char in Hc. cbn [tag_char] in Hc. apply N.eqb_eq in Hc. now subst. }
+    unfold wrap_sep_string. cbn [tag_str tag_char]. rewrite wrap_loop_dq.
     assert (Hall : forall c, has_char c name = false -> (c =? c_slash) = false -> has_char c (arg_of name d) = false).
     { intros c H1 H2. destruct d; cbn [arg_of]; [|exact H1]. rewrite has_char_app, H1. cbn [has_char orb].
       rewrite N.eqb_sym, H2. reflexivity. }
     match goal with |- run_line expand ?L = _ =>
-      assert (El : L = cmd ++ c_space :: render_qarg (QDq (arg_of name d)) ++ (if d then [] else [c_space])) end.
-    { f_equal. f_equal. unfold render_qarg. cbn [qarg_char qarg_text app]. destruct d; cbn [arg_of]; [|reflexivity].
-      rewrite removelast_wrap, app_nil_r. cbn [app]. now rewrite <- app_assoc. }
+      assert (El : L = cmd ++ c_space :: c_dq :: dq_esc (arg_of name d) ++ [c_dq] ++ (if d then [] else [c_space])) end.
+    { f_equal. f_equal. cbn [app]. destruct d; cbn [arg_of].
+      - rewrite removelast_wrap. unfold dq_esc. rewrite flat_map_app. cbn [flat_map app].
+        change (c_slash =? c_dq) with false. cbn iota. lnorm. reflexivity.
+      - lnorm. reflexivity. }
     rewrite El.
-    apply (quoted_round_trip expand cmd (QDq (arg_of name d))); try assumption.
-    + cbn [wf_qarg]. rewrite (cls_char KDq c_dq _ k_dq (Hall _ Hu eq_refl)), (cls_char KBs c_bs _ k_bs (Hall _ Hbs eq_refl)). reflexivity.
-    + cbn [wf_atom]. rewrite (lcls_char LDq c_dq _ l_dq (Hall _ Hu eq_refl)), (lcls_char LBs c_bs _ l_bs (Hall _ Hbs eq_refl)). reflexivity.
-    + cbn [tok_of_qarg qarg_tag qarg_text literal_token]. unfold lacks.
-      rewrite (Hall _ Hdol eq_refl), (Hall _ Hbq eq_refl). reflexivity.
+    apply dq_round_trip; try assumption.
+    + now apply Hall.
+    + now apply Hall.
+    + now apply Hall.
     + destruct d; reflexivity.
 Qed.
